@@ -6,6 +6,9 @@ spec/Merkle.tla, table "c03"; driver vd-merkle c03.
   2. P-TABLE: for every n the root TERM is evaluated with the real double SHA-256 over random hash tables and compared
      with common.ComputeMerkleRoot; over the hashes of real transactions with Block.RebuildMerkleRoot; and
      Block.Deserialization must accept a block carrying exactly that root and refuse neighbouring roots / a flipped bit.
+  3. The same rows are evaluated again CONCURRENTLY (16 and 11 goroutines, two seeded orders, several repetitions; the node
+     calls these functions from p2p/sync and consensus goroutines): a row that is right alone and wrong next to other calls is a
+     violation (c03:root-differs-under-concurrent-calls).
 """
 from checks.merkle_common import table, cfg_text, summary, load_replay
 
@@ -25,7 +28,8 @@ def run(ctx):
             rows, _ = table(ctx, "Merkle_c03_%s.cfg" % lab, files={"Merkle_c03_%s.cfg" % lab: cfg_text("c03", nn, lab=lab, prop="PropC03")})
         if len(rows) != nn + 1:
             ctx.fail("c03 table (%s): %d rows, expected %d" % (lab, len(rows), nn + 1))
-        out = ctx.driver(b, ["c03", str(sets if lab == "id" else 2), lab], input_obj=rows)
+        reps = (60 if q else 6) if lab == "id" else (20 if q else 4)
+        out = ctx.driver(b, ["c03", str(sets if lab == "id" else 2), lab, str(reps)], input_obj=rows)
         s = summary(out)
         if not s:
             ctx.fail("driver printed no summary")
